@@ -22,6 +22,7 @@ Where Python would raise a non-pybtex exception (`IndexError` in the two `get_er
 functions on an impossible parser state) the model returns `RenderFail`; it never invents a value.
 -/
 import PybtexModel.Model.Basic
+import PybtexModel.Gen.C16Tables
 
 namespace Pybtex.Errors
 
@@ -79,11 +80,17 @@ def hexN : Nat → Nat → Str
   | 0, _ => []
   | w + 1, n => hexN w (n / 16) ++ [hexDigit (n % 16)]
 
-/-- Code points `repr` escapes although they are not ASCII: exact on U+0080–U+00FF and on the
-Unicode space/line/paragraph separators; every other non-ASCII code point is taken to be
-printable (trusted base: `str.isprintable`). -/
+/-- membership in a table of inclusive code-point ranges -/
+def inRangeTable (n : Nat) : List (Nat × Nat) → Bool
+  | [] => false
+  | (a, b) :: r => (a ≤ n && n ≤ b) || inRangeTable n r
+
+/-- Code points `repr` escapes although they are not ASCII: `not chr(n).isprintable()` of the
+running interpreter, for every code point (`Gen/C16Tables.lean`, regenerated on every run by
+`harness/tablegen/c16.py`: control characters, separators other than the space, unassigned,
+private-use and format characters such as U+200B or U+FEFF). -/
 def nonPrintable (n : Nat) : Bool :=
-  (128 ≤ n && n ≤ 160) || n = 173 || wsCodes.contains n
+  128 ≤ n && inRangeTable n Gen.nonPrintableRanges
 
 /-- one character of `repr(str)`; `q` is the quote in use. -/
 def reprChar (q : Char) (c : Char) : Str :=
